@@ -65,7 +65,7 @@ def run(tier, seed, replay):
         return rp
 
     replays = {
-        "CheckLineLen.run": replay_lines(("code",)),
+        "CheckLineLen.run": replay_lines(("code", "line-comment", "block-first", "block-interior", "block-last")),
         "CheckCommentLineLen.run": replay_lines(("line-comment", "block-first", "block-interior", "block-last")),
     }
     for c in L.contracts():
